@@ -129,3 +129,17 @@ Definition chk_run_buf (r : res (@out Q)) (o : observed) : bool :=
   match r with Err _ => ob_err o | Ok r => chk_common r o && all2 qclose (o_Xw r) (ob_Xw o) end.
 Definition chk_run_nobuf (r : res (@out Q)) (o : observed) : bool :=
   match r with Err _ => ob_err o | Ok r => chk_common r o end.
+
+(* ---- path(): the mock with penalty.alpha := alpha at each step ---- *)
+Require Import SK.Skel.Path.
+Definition with_alpha (m : mock) (a : Q) : mock :=
+  {| m_T := m_T m; m_a := m_a m; m_lip := m_lip m; m_pen := m_pen m; m_alpha := a; m_B := m_B m;
+     m_positive := m_positive m; m_thr := m_thr m; m_accK := m_accK m |}.
+Definition mock_path (cfg : @config Q) (m : mock) (alphas : list Q) (w0 Xw0 : list Q) : res (list (@out Q)) :=
+  path_loop (fun _ => cfg) (fun a => mock_kernels (with_alpha m a)) (fun _ => 0%Z) 0%Z alphas w0 Xw0 [].
+Definition chk_path (r : res (list (@out Q))) (e : option (list (list Q * xq))) : bool :=
+  match r, e with
+  | Ok outs, Some obs => all2 (fun o ob => all2 qclose (o_w o) (fst ob) && ext_eq (o_stop o) (snd ob)) outs obs
+  | Err _, None => true
+  | _, _ => false
+  end.
